@@ -331,6 +331,14 @@ func (p *prover) valFacts(v ssa.Value) {
 				}
 			}
 		}
+		// a helper that returns a position of one of its slice parameters, or a negative constant
+		if p.c != nil {
+			if sp, nf, ok := p.c.sliceIndexSummary(x.Call.StaticCallee()); ok && sp < len(x.Call.Args) {
+				p.g.le("0", k, -nf) // nf <= v
+				p.lenFacts(x.Call.Args[sp])
+				p.g.le(k, lenKey(p.canon(x.Call.Args[sp])), -1) // v <= len(arg) - 1
+			}
+		}
 		name := CalleeName(x)
 		switch {
 		case name == "(*Havoc/pkg/common/parser.Parser).ParseInt32":
@@ -1420,14 +1428,34 @@ func proveAtCallers(c *Ctx, fn *ssa.Function, in ssa.Instruction) bool {
 		if !ok {
 			return false
 		}
+		xField, xFieldName = t+"."+f, f
+		// a field of a nested struct of the parameter: p.A.F
+		for {
+			if inner, isFA := base.(*ssa.FieldAddr); isFA {
+				_, f2, b2, ok2 := FieldOf(inner)
+				if !ok2 {
+					break
+				}
+				xFieldName = f2 + "." + xFieldName
+				base = b2
+				continue
+			}
+			break
+		}
 		xRecv = paramIdx(base)
 		if xRecv < 0 {
 			return false
 		}
-		xField, xFieldName = t+"."+f, f
+		// nothing that can run before the instruction stores to the field
 		for _, b := range fn.Blocks {
-			for _, i2 := range b.Instrs {
-				if c.mayModify(i2, xField) {
+			before := b != in.Block() && BlockReaches(b, in.Block(), nil)
+			for k, i2 := range b.Instrs {
+				if b == in.Block() && k < InstrBlockIndex(in) {
+					before = true
+				} else if b == in.Block() {
+					before = BlockReaches(b, b, nil) && len(b.Succs) > 0 && loopsBackTo(b)
+				}
+				if before && c.mayModify(i2, xField) {
 					return false
 				}
 			}
@@ -1500,6 +1528,24 @@ func proveAtCallers(c *Ctx, fn *ssa.Function, in ssa.Instruction) bool {
 				L = fmt.Sprintf("site:%p", site)
 				pr.g.le("0", L, 0)
 				path := baseKey(cc.Args[xRecv]) + "." + xFieldName
+				// a find-index helper called on the same path, with the field untouched since: its result is a position
+				for _, cb := range caller.Blocks {
+					for _, ci := range cb.Instrs {
+						fcall, isCall := ci.(*ssa.Call)
+						if !isCall {
+							continue
+						}
+						fi := c.FindIndexOf(fcall.Call.StaticCallee())
+						if fi == nil || fi.sliceArg >= len(fcall.Call.Args) {
+							continue
+						}
+						if baseKey(fcall.Call.Args[fi.sliceArg])+"."+fi.slice != path || !c.stableBetween(fcall, site, xField) {
+							continue
+						}
+						pr.valFacts(fcall)
+						pr.g.le(valKey(fcall), L, -1) // result <= len - 1
+					}
+				}
 				for i := range loads {
 					o := &loads[i]
 					if o.path != path || o.field != xField || !c.stableBetween(o.in, site, xField) {
@@ -1705,4 +1751,74 @@ func (p *prover) lockstep(x *ssa.Phi, k string) {
 	}
 	p.valFacts(r)
 	p.g.le(k, valKey(r), c0-r0) // x - r <= c0 - r0
+}
+
+// sliceIndexSummary: every result of h is a negative constant or a value v with 0 <= v <= len(s)-1 for one slice
+// parameter s of h (proved in h itself). Returns the parameter index and the smallest constant result.
+func (c *Ctx) sliceIndexSummary(h *ssa.Function) (sliceParam int, notFound int64, ok bool) {
+	if h == nil || h.Blocks == nil || h.Signature.Results().Len() != 1 || !isIntType(h.Signature.Results().At(0).Type()) {
+		return 0, 0, false
+	}
+	if c.sliceIdx == nil {
+		c.sliceIdx = map[*ssa.Function][3]int64{}
+	}
+	if r, have := c.sliceIdx[h]; have {
+		return int(r[0]), r[1], r[2] == 1
+	}
+	c.sliceIdx[h] = [3]int64{0, 0, 0} // in progress / not a summary
+	sliceParam = -1
+	haveConst, haveIdx := false, false
+	loads := heapLoadsOf(h)
+	for _, b := range h.Blocks {
+		ret, isRet := b.Instrs[len(b.Instrs)-1].(*ssa.Return)
+		if !isRet {
+			continue
+		}
+		v := ret.Results[0]
+		if kc, isC := ConstInt(v); isC {
+			if kc >= 0 {
+				return 0, 0, false
+			}
+			if !haveConst || kc < notFound {
+				notFound = kc
+			}
+			haveConst = true
+			continue
+		}
+		found := -1
+		for i, prm := range h.Params {
+			if _, isSlice := prm.Type().Underlying().(*types.Slice); !isSlice {
+				continue
+			}
+			pr := newProver(c, loads, h, b)
+			t := pr.norm(v)
+			if !t.ok {
+				continue
+			}
+			pr.lenFacts(prm)
+			if pr.g.prove("0", t.sym, t.off) && pr.g.prove(t.sym, lenKey(pr.canon(prm)), -1-t.off) {
+				found = i
+				break
+			}
+		}
+		if found < 0 || (sliceParam >= 0 && sliceParam != found) {
+			return 0, 0, false
+		}
+		sliceParam, haveIdx = found, true
+	}
+	if !haveConst || !haveIdx {
+		return 0, 0, false
+	}
+	c.sliceIdx[h] = [3]int64{int64(sliceParam), notFound, 1}
+	return sliceParam, notFound, true
+}
+
+// loopsBackTo reports whether b lies on a cycle of the control-flow graph.
+func loopsBackTo(b *ssa.BasicBlock) bool {
+	for _, s := range b.Succs {
+		if BlockReaches(s, b, nil) {
+			return true
+		}
+	}
+	return false
 }
